@@ -82,6 +82,24 @@ Theorem C10_stage_occupancy_le_permits : forall w_sub w_req w_io q_sub q_req q_i
 Proof. exact stage_occupancy_le_permits. Qed.
 Print Assumptions C10_stage_occupancy_le_permits.
 
+(** Exactly: queued-or-running tasks of the submission executor <= its queue
+    size, of the IO executor <= max_io_queue_size (tag semaphores exist only on
+    the request executor; a request task holds the executor's permit or a tag
+    permit, [C10_stage_occupancy_le_permits] bounds each). *)
+Theorem C10_stage_occupancy_exact : forall w_sub w_req w_io q_sub q_req q_io up down s st cap,
+  1 <= q_sub -> 1 <= q_req -> 1 <= q_io -> 1 <= up -> 1 <= down ->
+  reachable (init w_sub w_req w_io q_sub q_req q_io up down) s -> st = SSub \/ st = SIO ->
+  caps q_sub q_req q_io up down (sem_of_stage st) = Some cap ->
+  count (fun x => stage_eqb (k_stage x) st && occupying (k_st x)) (tasks s) <= cap.
+Proof. exact stage_occupancy_exact. Qed.
+Print Assumptions C10_stage_occupancy_exact.
+
+Theorem C10_permit_kind : forall w_sub w_req w_io q_sub q_req q_io up down s k x,
+  reachable (init w_sub w_req w_io q_sub q_req q_io up down) s -> find_task k (tasks s) = Some x ->
+  k_permit x = -1 \/ permit_ok (k_permit x) (k_stage x) = true.
+Proof. intros; eapply permit_kind_reachable; eauto. Qed.
+Print Assumptions C10_permit_kind.
+
 Theorem C10_occupying_holds_permit : forall w_sub w_req w_io q_sub q_req q_io up down s k x,
   reachable (init w_sub w_req w_io q_sub q_req q_io up down) s ->
   find_task k (tasks s) = Some x -> k_stage x <> SInline -> occupying (k_st x) = true ->
